@@ -32,19 +32,43 @@ def snapshot(obj):
     return ("obj", type(obj).__name__, tuple(sorted((k, _freeze(v)) for k, v in d.items())))
 
 
+def _diff_frozen(b, a, path, out):
+    """recursive comparison; attributes / dict keys that are new in `a` are not changes"""
+    if b == a:
+        return
+    if b[0] != a[0]:
+        out.append(path or "<value>")
+        return
+    if b[0] == "obj":
+        if b[1] != a[1]:
+            out.append(path + "<type>")
+            return
+        bd, ad = dict(b[2]), dict(a[2])
+        for k, v in bd.items():
+            if k not in ad:
+                out.append("%s%s (removed)" % (path, k))
+            else:
+                _diff_frozen(v, ad[k], "%s%s." % (path, k), out)
+        return
+    if b[0] == "dict":
+        bd, ad = dict(b[1]), dict(a[1])
+        if set(bd) != set(ad):
+            out.append(path.rstrip(".") + " (keys)")
+            return
+        for k, v in bd.items():
+            _diff_frozen(v, ad[k], "%s[%s]." % (path.rstrip("."), k), out)
+        return
+    if b[0] == "seq" and len(b) == 3 and len(a) == 3 and len(b[2]) == len(a[2]) and b[1] == a[1]:
+        for i, (x, y) in enumerate(zip(b[2], a[2])):
+            _diff_frozen(x, y, "%s[%d]." % (path.rstrip("."), i), out)
+        return
+    out.append(path.rstrip(".") or "<value>")
+
+
 def diff(before, obj):
-    """Names of pre-existing attributes that changed (new caches are not changes)."""
-    after = snapshot(obj)
-    if before[0] != "obj" or after[0] != "obj":
-        return [] if before == after else ["<value>"]
-    b = dict(before[2])
-    a = dict(after[2])
+    """Names of pre-existing attributes that changed (newly materialised caches are not changes)."""
     out = []
-    for k, v in b.items():
-        if k not in a:
-            out.append(k + " (removed)")
-        elif a[k] != v:
-            out.append(k)
+    _diff_frozen(before, snapshot(obj), "", out)
     return out
 
 
